@@ -827,7 +827,21 @@ func c08R8(c *Ctx) {
 			case *ssa.MapUpdate:
 				addr = x.Map
 			default:
-				return
+				// a library call that writes through one of its arguments
+				// (atomic.Pointer.Store, sync.Map.Store, json Decode into a field, …)
+				cc := callOf(in)
+				if cc == nil {
+					return
+				}
+				args := cc.Args
+				for _, k := range libWrites(cc) {
+					if k < len(args) {
+						addr = args[k]
+					}
+				}
+				if addr == nil {
+					return
+				}
 			}
 			// the innermost item-typed object the address is a field of
 			var obj ssa.Value
